@@ -104,14 +104,16 @@ def gen_pat_string(rng, block, dec):
 
 
 def run(ctx):
-    pr = core.prove("C16", extra_modules=["MC.Props.C16Fold", "MC.Props.C12Sep"])
+    pr = core.prove("C16", extra_modules=["MC.Props.C16Fold", "MC.Props.C12Sep", "MC.Props.C16Locale"])
     core.proof_coverage(ctx, pr, "lake build MC.Props.C16 && lake env lean build/audit_C16.lean (#print axioms)",
                         ["modelled, not verified: the seven locale regexes as scanners, is_likely_a_number (neutral context), the scan of merge_number_blocks, trim_whitespace and merge_block (MC.Model.Numbers)",
                          "guards of the model: disjoint digit-free separator sets, one decimal-separator character, ASCII digits, no roman-numeral-shaped tokens, neutral context (no fences next to the block, not the end of the expression)",
                          "the rest of canonicalization (leaf clean-up, row re-bracketing) is outside this model: the oracle compares whole canonical trees, speech and braille",
                          "fold_split / split_eq_unsplit (MC/Props/C16Fold.lean): for every separator setting and every number of the grammar, the scan merges the number split at every "
                          "separator (mn digit groups, mo or mtext separators) into ONE mn with the unsplit text and treats the unsplit mn the same; hypotheses: a neutral context and a token "
-                         "behind the number that holds no separator character; partial splits and fence / end-of-expression contexts are decided on the implementation only"])
+                         "behind the number that holds no separator character; partial splits and fence / end-of-expression contexts are decided on the implementation only",
+                         "derived_good / split_folds_in_force (MC/Props/C16Locale.lean): every separator setting that a language tag and a DecimalSeparator value can derive satisfies the "
+                         "hypotheses of fold_split, so after EVERY history of preference requests (MC/Props/C12Sep.lean) split = unsplit holds for the numbers of the language in force"])
     core.need_harness(ctx)
     core.need_driver(ctx)
     im, mo = core.impl(), core.model()
